@@ -249,6 +249,20 @@ pub fn generate(seed: u64, prop: &str) -> PoolScenario {
         let hdep = if r.chance(1, 7) { Some(r.range(0, 3)) } else { None };
         txs.push(TxSpec { inputs, outputs, fee, dep, salt: r.below(1 << 30), hdep });
     }
+    if c13_full {
+        // volume for full templates: mostly independent transactions, each on a genesis cell of its own
+        cfg.genesis_cells = (0..40u64).map(|i| (3_000 + 997 * i) * SHANNONS).collect();
+        for (t, spec) in txs.iter_mut().enumerate() {
+            if t < 34 {
+                spec.inputs = vec![InRef::G(t)];
+                spec.dep = None;
+                spec.hdep = None;
+                if spec.fee < 600 {
+                    spec.fee = 600 + spec.salt % 2_000;
+                }
+            }
+        }
+    }
     // planted shape: an output of an early transaction x is referenced as cell dep by p and spent by c
     let mut planted_shape: Option<(usize, usize, usize)> = None;
     if ntx >= 4 && r.chance(1, 2) {
@@ -444,6 +458,16 @@ pub fn generate(seed: u64, prop: &str) -> PoolScenario {
                 sk.push(POp::Quiesce);
                 for t in late.iter() {
                     sk.push(POp::Submit { t: *t, remote: false });
+                    sk.push(POp::Quiesce);
+                }
+            }
+            if k >= cfg.w_close && rs.chance(1, 2) {
+                // a proposed transaction leaves and comes back while the template for this tip is full
+                for _ in 0..rs.urange(1, 2) {
+                    let t = rs.idx(ntx);
+                    sk.push(POp::Remove { t });
+                    sk.push(POp::Quiesce);
+                    sk.push(POp::Submit { t, remote: false });
                     sk.push(POp::Quiesce);
                 }
             }
